@@ -351,10 +351,43 @@ where T: Integer, for<'x> &'x T: IntOps<T> {
 
 impl<T> Ord for Ratio<T>
 where T: Integer, for<'x> &'x T: IntOps<T> {
+    // exact comparison (no floating point, no cross-multiplication that could overflow): 
+    // compare the integer parts, then recurse on the reciprocals of the fractional parts.
+    // denominators are positive (values are kept reduced).
     fn cmp(&self, other: &Self) -> cmp::Ordering {
-        let l = self.to_f64();
-        let r = other.to_f64();
-        l.total_cmp(&r)
+        use cmp::Ordering::*;
+
+        fn div_mod_floor<T>(a: &T, b: &T) -> (T, T)
+        where T: Integer, for<'x> &'x T: IntOps<T> {
+            let (q, r) = (a / b, a % b); // truncated, b > 0
+            if r.is_negative() { 
+                (q - T::one(), r + b)
+            } else { 
+                (q, r)
+            }
+        }
+
+        if self.denom == other.denom { 
+            return self.numer.cmp(&other.numer)
+        }
+
+        let (q1, r1) = div_mod_floor(&self.numer,  &self.denom);
+        let (q2, r2) = div_mod_floor(&other.numer, &other.denom);
+
+        match q1.cmp(&q2) { 
+            Equal => match (r1.is_zero(), r2.is_zero()) { 
+                (true,  true ) => Equal,
+                (true,  false) => Less,
+                (false, true ) => Greater,
+                (false, false) => { 
+                    // 0 < r1/d1, r2/d2 < 1: compare the reciprocals, reversed.
+                    let x = Ratio::new_raw(self.denom.clone(),  r1);
+                    let y = Ratio::new_raw(other.denom.clone(), r2);
+                    y.cmp(&x)
+                }
+            },
+            ord => ord
+        }
     }
 }
 
